@@ -198,7 +198,10 @@ def evaluate(component, cases, outcome, keep_samples=3, batch=2000):
         lines = [q.line for _, q in pending]
         replies = run_model(lines)
         for (case, q), reply in zip(pending, replies):
-            if reply != q.expect:
+            ok = (reply in q.expect) if isinstance(q.expect, (tuple, list)) else (reply == q.expect)
+            if reply == "na":
+                outcome.count("oracle-not-applicable")
+            if not ok:
                 if q.kind == "oracle":
                     outcome.oracle_fail.append((case, q, reply))
                 else:
